@@ -228,9 +228,12 @@ def autograd_jacobian(case, point, dtype, route, rec):
     return full, None
 
 
-def _val_strategy(kind, glt, cls, dtype):
+def _val_strategy(kind, glt, cls, dtype, small=None):
     alt = FAM[glt]
-    small = glt == "Sim3"
+    # Sim3 values stay near the identity when they may reach sim3 Exp / Log / Jinvp / Retr / + (documented series truncation,
+    # see _inspect); programs without those operators use O(1) Sim3 values (small=False, chosen in program())
+    small = (glt == "Sim3") if small is None else small
+    big_scale = small is False and glt in ("Sim3", "RxSO3")
     f = st.floats
 
     @st.composite
@@ -255,7 +258,7 @@ def _val_strategy(kind, glt, cls, dtype):
             th = draw(f(0.0, rmax))
             phi = [th * c for c in d]
             tau = [draw(f(-tmax, tmax)) for _ in range(3)]
-            sg = draw(f(-0.06, 0.06)) if small else draw(f(-0.3, 0.3))
+            sg = draw(f(-0.06, 0.06)) if small else (draw(f(-1.5, 1.5)) if big_scale else draw(f(-0.3, 0.3)))
         return R.join_alg(alt, np.array(tau), np.array(phi), sg).tolist()
 
     @st.composite
@@ -264,7 +267,11 @@ def _val_strategy(kind, glt, cls, dtype):
             return draw(alg())
         if kind == "G":
             a = np.array(draw(alg()))
-            return R.exp_np(alt, a).tolist()
+            X = R.exp_np(alt, a)
+            if draw(st.integers(0, 3)) == 0:          # the other quaternion of the same rotation (w < 0)
+                t_, q_, s_ = R.split_group(glt, X)
+                X = R.join_group(glt, t_, -np.asarray(q_), s_)
+            return np.asarray(X).tolist()
         p = [draw(f(-2, 2)) for _ in range(3)]
         if kind == "P4":
             p.append(draw(st.sampled_from((0.0, 1.0, 1.0))) if draw(st.booleans()) else draw(f(-2, 2)))
@@ -283,7 +290,13 @@ def program(draw, tier, single=False):
     kinds = [draw(st.sampled_from(("G", "G", "A", "A", "P3", "P4"))) for _ in range(nin)]
     if not any(k in ("G", "A") for k in kinds):
         kinds[0] = draw(st.sampled_from(("G", "A")))
-    inputs = [{"kind": k, "val": draw(_val_strategy(k, glt, cls, dtype)), "const": draw(st.integers(0, 3)) == 0} for k in kinds]
+    # Sim3 / RxSO3 "big": O(1) rotation, translation and log-scale up to 1.5; for Sim3 the operators that go through the truncated
+    # sim3 series (Exp, Log, Jinvp, Retr, +) and the Log sink are then left out of the program instead of shrinking the values
+    big = glt in ("Sim3", "RxSO3") and cls in ("generic", "large") and draw(st.booleans())
+    small = None if glt != "Sim3" else (not big)
+    if glt == "RxSO3":
+        small = False if big else None
+    inputs = [{"kind": k, "val": draw(_val_strategy(k, glt, cls, dtype, small=small)), "const": draw(st.integers(0, 3)) == 0} for k in kinds]
     if all(i["const"] for i in inputs):          # at least one differentiable input
         inputs[draw(st.integers(0, len(inputs) - 1))]["const"] = False
     ts = list(kinds)
@@ -293,6 +306,8 @@ def program(draw, tier, single=False):
         avail = [op for op, (at, rt) in OPS.items() if all(a in ts for a in at)]
         if cls in ("identity", "tiny"):
             avail = [o for o in avail if o != "Jinvp"]
+        if big and glt == "Sim3":
+            avail = [o for o in avail if o not in ("Exp", "Log", "Jinvp", "Retr", "Add")]
         lie = [o for o in avail if o in LIEOPS]
         op = draw(st.sampled_from(lie if (lie and draw(st.integers(0, 3)) > 0) else avail))
         args = []
@@ -303,8 +318,8 @@ def program(draw, tier, single=False):
         nodes.append({"op": op, "args": args})
         ts.append(OPS[op][1])
     return {"ltype": glt, "dtype": dtype, "cls": cls, "inputs": inputs, "nodes": nodes,
-            "sink": draw(st.sampled_from(("log", "matrix", "act"))), "cseed": draw(st.integers(0, 10 ** 6)),
-            "route": draw(st.sampled_from(ROUTES))}
+            "sink": draw(st.sampled_from(("matrix", "act") if (big and glt == "Sim3") else ("log", "matrix", "act"))), "cseed": draw(st.integers(0, 10 ** 6)),
+            "route": draw(st.sampled_from(ROUTES)), "big": bool(big)}
 
 
 def _inspect(case):
@@ -376,7 +391,17 @@ def _apply(op, a, glt, C):
     raise ValueError(op)
 
 
-def check_program(case, rec, tol64=1e-6):
+VEC_ROUTES = ("pp_jacrev", "torch_jacrev", "modjac_vec")
+
+
+def _vmap_refusal(e):
+    """torch.vmap refusing an in-place / data-dependent operation inside one of pypose's autograd Functions: loud, documented as
+    partially supported - not a wrong Jacobian.  Anything else a vectorised route raises is a failure like on the other routes."""
+    m = str(e).lower()
+    return isinstance(e, RuntimeError) and any(k in m for k in ("vmap", "batching rule", "batched", "functorch", "inplace"))
+
+
+def check_program(case, rec, tol64=1e-6, must_work=False):
     glt, dtype, route = case["ltype"], case["dtype"], case["route"]
     ok, why = _inspect(case)
     if not ok:
@@ -389,10 +414,16 @@ def check_program(case, rec, tol64=1e-6):
     rec.label(glt, dtype, "cls:" + case["cls"], "route:" + route, *["op:" + o for o in ops])
     if len(lieops) >= 2 and "G" in ts:
         rec.nt((tuple(sorted(nd["op"] for nd in case["nodes"])), glt, tuple(i["kind"] + ("c" if i.get("const") else "") for i in case["inputs"]), case["cls"], route, dtype, case["sink"]))
+    if case.get("big"):
+        rec.label("big:" + glt)
     try:
-        with rec.sut("autograd(%s)" % route, allow=(RuntimeError, NotImplementedError, AssertionError, TypeError, ValueError) if route in ("pp_jacrev", "torch_jacrev", "modjac_vec") else ()):
+        with rec.sut("autograd(%s)" % route, allow=(RuntimeError,) if route in VEC_ROUTES else ()):
             Ja, cot = autograd_jacobian(case, point, dtype, route, rec)
-    except (RuntimeError, NotImplementedError, AssertionError, TypeError, ValueError) as e:
+    except RuntimeError as e:
+        if must_work or not _vmap_refusal(e):
+            rec.fail("route_raises:%s:%s:%s" % (route, glt, "+".join(sorted(set(nd["op"] for nd in case["nodes"])))),
+                     "%s raised RuntimeError on %s program %s (sink %s): %s" % (route, glt, [n["op"] for n in case["nodes"]], case["sink"], str(e)[:300]))
+            return
         rec.label("route_raised:%s:%s" % (route, type(e).__name__))
         return
     tol = tol64 if dtype == "float64" else 16 * math.sqrt(tu.EPS["float32"])
@@ -465,6 +496,52 @@ class SingleOps(Sub):
     valid = Programs.valid
 
 
+def canary_case(route, glt, op, sink):
+    """fixed single-operator program near the identity (pure function of its arguments)"""
+    rs = np.random.RandomState((sum(map(ord, route + glt + op + sink)) * 7919) % (2 ** 31))
+    alt = FAM[glt]
+
+    def val(kind):
+        a = rs.uniform(-0.05, 0.05, size=R.ADIM[alt])
+        if kind == "A":
+            return a.tolist()
+        if kind == "G":
+            return np.asarray(R.exp_np(alt, a)).tolist()
+        p = rs.uniform(-1, 1, size=3).tolist()
+        return p + [0.7] if kind == "P4" else p
+    kinds = list(OPS[op][0])
+    return {"ltype": glt, "dtype": "float64", "cls": "generic", "inputs": [{"kind": k, "val": val(k), "const": False} for k in kinds],
+            "nodes": [{"op": op, "args": list(range(len(kinds)))}], "sink": sink, "cseed": 3, "route": route}
+
+
+# vectorised routes that torch.vmap refuses today even for a single operator (in-place arithmetic inside the Function)
+CANARY_KNOWN_REFUSED = {("RxSO3", "AdjT")}
+
+
+class RouteCanary(Sub):
+    """the vectorised differentiation routes (modjac(vectorize=True), pp.func.jacrev, torch.func.jacrev under retain_ltype) are
+    allowed to refuse composite programs loudly - but a change that makes one of them refuse (or mis-evaluate) EVERY program
+    would then pass unnoticed.  This enumerates every (route, group, operator, sink) single-operator program at a fixed point:
+    each must return, and return the numerical Jacobian, except the combinations listed in CANARY_KNOWN_REFUSED."""
+    name = "route_canary"
+    kind = "enum"
+    exhaustive = True
+
+    def cases(self, tier):
+        for route in VEC_ROUTES:
+            for glt in R.GROUPS:
+                for op in OPS:
+                    for sink in (("act",) if tier == "quick" else ("log", "matrix", "act")):
+                        yield {"route": route, "ltype": glt, "op": op, "sink": sink}
+
+    def oracle(self, case, rec):
+        prog = canary_case(case["route"], case["ltype"], case["op"], case["sink"])
+        known = (case["ltype"], case["op"]) in CANARY_KNOWN_REFUSED
+        rec.label("canary:" + case["route"], "known_refused" if known else "must_work")
+        rec.nt((case["route"], case["ltype"], case["op"], case["sink"]))
+        check_program(prog, rec, must_work=not known)
+
+
 class Sim3Trunc(Sub):
     name = "sim3_trunc"
     n = {"quick": 800, "thorough": 20000}
@@ -518,7 +595,7 @@ class Sim3Trunc(Sub):
                       lambda: "sim3 %s backward: error %.3g exceeds |ad|^6/360 = %.3g at |ad| = %.3g" % (which, err, bound, na))
 
 
-SUBS = [Programs(), SingleOps(), Sim3Trunc()]
+SUBS = [Programs(), SingleOps(), RouteCanary(), Sim3Trunc()]
 
 
 def selftest():
